@@ -265,8 +265,28 @@ func patOrB(b []byte) string {
 	return B(b)
 }
 
-func runE2E(r *gen.Rng, n int, big int) {
-	e2eSetup()
+// the sessions with large messages, as closures that main spreads over the output (see bigCases)
+func e2eBig(r *gen.Rng, big int) []func() {
+	var out []func()
+	if big >= 2 {
+		// both sides of the 16-bit boundary in both directions, masked and not, one connection
+		a, b, c, d, k := patBytes(r, 65535), patBytes(r, 65536), patBytes(r, 65536), patBytes(r, 65535), r.Bytes(4)
+		out = append(out, func() { e2eWS("/wsbig1", []wsMsg{{payload: a}, {key: k, payload: b}}, [][]byte{c, d}, true) })
+		e, f, g, h, i, k2 := patBytes(r, 65537), patBytes(r, 65537), patBytes(r, 0), patBytes(r, 65537), patBytes(r, 126), r.Bytes(4)
+		out = append(out, func() {
+			e2eWS("/wsbig2", []wsMsg{{key: k2, payload: e}, {payload: f}, {payload: g}}, [][]byte{h, i}, true)
+		})
+	}
+	if big >= 3 {
+		a, b, k := patBytes(r, 200*1024), patBytes(r, 200*1024), r.Bytes(4)
+		out = append(out, func() { e2eWS("/wsbig3", []wsMsg{{key: k, payload: a}}, [][]byte{b}, true) })
+		c := patBytes(r, 200*1024)
+		out = append(out, func() { e2eWS("/wsbig4", []wsMsg{{payload: c}}, [][]byte{{1}}, true) })
+	}
+	return out
+}
+
+func runE2E(r *gen.Rng, n int) {
 	// HTTP exchanges: requests of G (printable paths: the client's URL parser stops at a newline)
 	nh := n * 2 / 3
 	for i := 0; i < nh; i++ {
@@ -297,18 +317,8 @@ func runE2E(r *gen.Rng, n int, big int) {
 		}
 		e2eWS(fmt.Sprintf("/ws%d", i), c2s, s2c, i%2 == 0)
 	}
-	if big >= 2 {
-		// both sides of the 16-bit boundary in both directions, masked and not, one connection
-		e2eWS("/wsbig1", []wsMsg{{payload: patBytes(r, 65535)}, {key: r.Bytes(4), payload: patBytes(r, 65536)}},
-			[][]byte{patBytes(r, 65536), patBytes(r, 65535)}, true)
-	}
-	if big >= 2 {
-		e2eWS("/wsbig2", []wsMsg{{key: r.Bytes(4), payload: patBytes(r, 65537)}, {payload: patBytes(r, 65537)}, {payload: patBytes(r, 0)}},
-			[][]byte{patBytes(r, 65537), patBytes(r, 126)}, true)
-	}
-	if big >= 3 {
-		e2eWS("/wsbig3", []wsMsg{{payload: patBytes(r, 200*1024)}, {key: r.Bytes(4), payload: patBytes(r, 200*1024)}},
-			[][]byte{patBytes(r, 200*1024)}, true)
-	}
+}
+
+func e2eReport() {
 	fmt.Fprintf(w, "# e2e: %d exchanges retried on a fresh connection (lost or early wake-up in the socket glue), %d given up\n", e2eRetries, e2eGiveUps)
 }
